@@ -31,6 +31,24 @@ def main():
                 continue
             pub = ref.mul(dv)
             sv.append('{%s,%s,%s,%s,%s,%s,%s},' % (go_bytes(list(dv.to_bytes(klen_, 'big'))), go_bytes(b32(evv)), go_bytes(b32(kv) + b32(0x1234567) * 2), go_bytes(b32(rs[0])), go_bytes(b32(rs[1])), go_bytes(b32(pub[0])), go_bytes(b32(pub[1]))))
+    # rare intermediate values, solved for the digest: t = (r+s) mod n small (t = (r+k)/(1+d)), r small, s small
+    dv0, kv0 = rng0.randrange(1, N - 1), rng0.randrange(1, N)
+    x1_0 = ref.mul(kv0)[0]
+    inv1d = pow(1 + dv0, -1, N)
+    rare = []
+    for t0 in (1, 2, 5, 1000, 8191, 8192, 2 ** 20, 2 ** 100, 2 ** 247):
+        rare.append((t0 * (1 + dv0) - kv0) % N)                       # r with (r+k)/(1+d) = t0
+    for r0 in (1, 2, 255, 2 ** 100, 2 ** 247):
+        rare.append(r0)
+    for s0 in (1, 2, 2 ** 100, 2 ** 247):
+        rare.append((kv0 - s0 * (1 + dv0)) * pow(dv0, -1, N) % N)     # r with s = s0
+    for rr in rare:
+        evv = (rr - x1_0) % N
+        rs = ref.sign_k(dv0, evv, kv0)
+        if rs is None:
+            continue
+        pub = ref.mul(dv0)
+        sv.append('{%s,%s,%s,%s,%s,%s,%s},' % (go_bytes(b32(dv0)), go_bytes(b32(evv)), go_bytes(b32(kv0) + b32(0x1234567) * 2), go_bytes(b32(rs[0])), go_bytes(b32(rs[1])), go_bytes(b32(pub[0])), go_bytes(b32(pub[1]))))
     src0 = '''package sm2
 import ("testing"; "bytes")
 type verifReader struct{ b []byte; used int }
